@@ -611,7 +611,15 @@ void wl_rt_start(wl_rt *rt, int flags)
         rt->sched_kind[e] = pick_sched(flags);
         if (rt->sched_kind[e] == 4)
             ABT_OK(ABT_xstream_create(wl_make_user_sched(n, ps), &rt->xs[e]));
-        else
+        else if (plan_n(4) == 0) {
+            /* the event-check frequency given as a scheduler hint (0 = as often as possible;
+             * unlike the environment variable the hint is not clamped) */
+            static const int freqs[] = { 0, 0, 1, 2, 7, 64 };
+            ABT_sched_config cfg;
+            ABT_OK(ABT_sched_config_create(&cfg, ABT_sched_basic_freq, freqs[plan_n(6)], ABT_sched_config_var_end));
+            ABT_OK(ABT_xstream_create_basic(sched_predefs[rt->sched_kind[e]], n, ps, cfg, &rt->xs[e]));
+            ABT_OK(ABT_sched_config_free(&cfg));
+        } else
             ABT_OK(ABT_xstream_create_basic(sched_predefs[rt->sched_kind[e]], n, ps, ABT_SCHED_CONFIG_NULL, &rt->xs[e]));
     }
     sim_note("rt{nes=%d topo=%d scheds=", nes, topo);
